@@ -35,6 +35,8 @@ type Solver struct {
 	dead      bool
 	lastErr   string
 	timeoutMs int
+	deadline  time.Time // after it every query is answered unknown (wall budget of the harness used up)
+	expired   bool
 }
 
 // SolverCommand gives argv for a named solver.
@@ -170,6 +172,14 @@ func (r SatResult) String() string { return [...]string{"sat", "unsat", "unknown
 // Check runs check-sat at the current scope.
 func (s *Solver) Check() SatResult {
 	if s.dead {
+		return Unknown
+	}
+	if !s.deadline.IsZero() && time.Now().After(s.deadline) {
+		// the harness' wall-clock budget is used up: answer unknown at once so that the
+		// path in flight ends quickly (its obligations are counted as inconclusive)
+		s.expired = true
+		s.Stats.Queries++
+		s.Stats.Unknown++
 		return Unknown
 	}
 	t0 := time.Now()
